@@ -98,6 +98,9 @@ func oracle(prop string, x expect) func(in *ctl.Inst, r *vs.Result) []string {
 		}
 		// cascade (observed before the final Close of the run)
 		triggered := true
+		if in.C.Close.Kind != "" && !o.CloserStartedAtRead {
+			triggered = false // the scripted closer had not acted yet when the observer looked
+		}
 		for k := range in.C.ListFaults {
 			if f := in.C.ListFaults[k]; (f.Kind == "error" || f.Kind == "canceled") && o.Lists < k {
 				triggered = false // the failing list had not been issued when the observer looked
